@@ -1,7 +1,8 @@
 """C15 — classic serialization round-trips and is canonical."""
 import vlib, gen
 
-LEVEL = "proof"
+LEVEL = "other"   # part of the statement is proved, the rest is decided on the implementation (see Props file)
+FAMILY = "classic"
 
 
 def run(ctx):
@@ -10,10 +11,11 @@ def run(ctx):
                 "0xfffff/0x100000 as repeated-byte atoms), non-canonical integers, deep lists; per tree the model and the "
                 "implementation are compared on ser / object-cache length / decode / canonical / trusted length of the "
                 "serialization; non-trivial = distinct tree with at least one pair or an atom of length >= 2")
+    ctx.explanation = ("Part proof, part exploration. Theorems (Props/C15.v, all closed under the global context, counted in obligations/discharged): node_to_bytes = ser, node_from_stream(ser t ++ rest) = (t, rest), is_canonical_serialization(ser t), trusted length, object-cache length, for every tree. Not proved: the converse (decodes and judged canonical => re-serializes to the consumed bytes) and the untrusted length function; both are searched on the implementation ('agree' and 'tree' families counted in evaluations). Pins/C15.v ties the model's literals to constants the translator re-reads from the source on every run; the correspondence families compare model and implementation observation by observation.")
     ctx.proofs()
     if not ctx.build():
         return
-    n = ctx.scale(1500, 60000)
+    n = ctx.scale(1500, 15000)
     trees = [gen.gen_tree(r, big=(i % 40 == 0), share=r.choice([0, 0, 0.2])) for i in range(n)]
     trees += [gen.deep_list(r, d, right=(d % 2 == 0)) for d in (100, 500, 2000, 5000)]
     trees += [gen.Rep(b, ln) for ln in (0x3f, 0x40, 0x1fff, 0x2000, 0xfffff, 0x100000) for b in (0x00, 0x80)]
@@ -35,7 +37,7 @@ def run(ctx):
 
     # property-level search on the implementation: every relation the statement names, per tree
     big = []
-    if ctx.thorough:
+    if ctx.thorough or ctx.broken:   # a broken proof/pin widens the search to the 2^27 prefix boundary
         big = [gen.Rep(0x41, ln) for ln in (0x7ffffff, 0x8000000, 0x8000001)]
     lines = ["tree " + gen.tt(t) for t in trees + big]
     outs = vlib.run_impl("classic", lines, shards=4 if big else None)
@@ -53,7 +55,7 @@ def run(ctx):
         if bad:
             ctx.violation("round trip / canonical / length relation fails for a tree: %s" % bad, {"case": l[:2000], "impl": o})
     # converse: decodes and judged canonical => re-serializes to the consumed bytes (inside "agree")
-    bs = [gen.gen_bytes_classic(r) for _ in range(ctx.scale(3000, 200000))]
+    bs = [gen.gen_bytes_classic(r) for _ in range(ctx.scale(3000, 100000))]
     lines = ["agree " + gen.hx(b) for b in bs]
     outs = vlib.run_impl("classic", lines)
     for l, o in zip(lines, outs):
